@@ -60,6 +60,7 @@ type FailRec struct {
 	Msg    string   `json:"msg"`
 	Hash   string   `json:"hash"`
 	Tape   []uint64 `json:"tape"`
+	Start  int      `json:"start"` // index of the first run of the worker process that made this run
 	First  bool     `json:"first_in_process"`
 	Engine bool     `json:"engine"`
 }
@@ -280,7 +281,7 @@ func (sp *Spec) batch(t *testing.T, tier string, seed uint64, slot, epoch, start
 				hashes[res.Hash] = struct{}{}
 			}
 		}
-		rec := FailRec{Seed: rs, Slot: slot, Epoch: epoch, Index: i, Hash: fmt.Sprintf("%016x", res.Hash), Tape: res.Tape, First: i == start && epoch >= 0 && sum.Runs == 1}
+		rec := FailRec{Seed: rs, Slot: slot, Epoch: epoch, Index: i, Start: start, Hash: fmt.Sprintf("%016x", res.Hash), Tape: res.Tape, First: i == start && epoch >= 0 && sum.Runs == 1}
 		if ep := engineProblem(sp, res); ep != "" {
 			rec.Engine, rec.Class, rec.Msg = true, "engine", ep
 			sum.Failures = append(sum.Failures, rec)
@@ -369,6 +370,19 @@ type ReplayFile struct {
 	OrigLen  int      `json:"orig_tape_len"`
 	Trace    []string `json:"trace,omitempty"`
 	Note     string   `json:"note,omitempty"`
+	// Pred, when set, names the runs the worker process had executed before the failing one: the
+	// violation did not reproduce in a fresh process, i.e. it depends on state the code under test
+	// keeps in process globals (a changed go-zero may add such state).  Replaying executes those
+	// runs first (their tapes are a pure function of base seed, slot and index), then the tape.
+	Pred *PredRuns `json:"predecessor_runs,omitempty"`
+}
+
+// PredRuns identifies the runs start..start+count-1 of a worker slot.
+type PredRuns struct {
+	BaseSeed uint64 `json:"base_seed"`
+	Slot     int    `json:"slot"`
+	Start    int    `json:"start"`
+	Count    int    `json:"count"`
 }
 
 func readReplay(path string) *ReplayFile {
@@ -390,6 +404,13 @@ func (sp *Spec) replay(t *testing.T, tier string) {
 	rf := readReplay(os.Getenv("VERIF_REPLAY"))
 	if rf.Tier != "" {
 		tier = rf.Tier
+	}
+	if p := rf.Pred; p != nil {
+		for i := p.Start; i < p.Start+p.Count; i++ {
+			stop := watchdog(120*time.Second, func() string { return fmt.Sprintf("replay predecessor index=%d", i) })
+			sp.RunOnce(t, simrt.NewTape(mix(p.BaseSeed, uint64(p.Slot), uint64(i))), tier, false)
+			stop()
+		}
 	}
 	stop := watchdog(120*time.Second, func() string { return "replay" })
 	res, f := sp.RunOnce(t, simrt.ReplayTape(rf.Tape), tier, true)
